@@ -270,6 +270,21 @@ def reward_kernel(chk, it):
     outs = it.exec_fn(st, fn, [Ptr(cell), action])
     inputs = {'fee_pool': fp, 'tips': tips, 'height': h, 'reward_dest': dest, 'network': sterms['network']}
     n = 0
+    # the reward coin's key, read off a path that writes it (the id is (hash_keyed("reward_coin_pseudoid", height), 0))
+    reward_key = None
+    for s, o in outs:
+        if isinstance(o, Panic):
+            continue
+        t1 = s.heap[cell].fields[3].fields[0].data
+        ws = [e for e in s.events if e[0] == 'tree_insert' and e[1] == 'coins'] or [(None, 'coins', k, v) for k, v, g in t1.entries]
+        ws = [w for w in ws if M.hash_domain_of(w[2]) == 'single:CoinID']
+        if len(ws) > 1:
+            raise Inconclusive('expected at most one coin written by collect_proposer_action_fee, saw %d' % len(ws))
+        if ws:
+            reward_key = ws[0][2]
+    if reward_key is None:
+        raise Inconclusive('no path of collect_proposer_action_fee writes a coin')
+    reward_covers = []
     for idx, (s, o) in enumerate(outs):
         name = 'collect_proposer_action_fee/%d' % idx
         if isinstance(o, Panic):
@@ -279,22 +294,22 @@ def reward_kernel(chk, it):
         n += 1
         post = s.heap[cell]
         base_fees = z3.LShR(fp, 16)
-        rid = M.hash_apply(s, 'keyed[reward_coin_pseudoid]:array', [h]) if False else None
         tree1 = post.fields[3].fields[0].data
-        writes = [e for e in s.events if e[0] == 'tree_insert' and e[1] == 'coins'] or \
-                 [(None, 'coins', k, v) for k, v, g in tree1.entries]
-        coin_writes = [w for w in writes if M.hash_domain_of(w[2]) == 'single:CoinID']
-        if len(coin_writes) != 1:
-            raise Inconclusive('expected exactly one coin written by collect_proposer_action_fee, saw %d' % len(coin_writes))
-        key, val = coin_writes[0][2], coin_writes[0][3]
+        key = reward_key
+        # read the entry back through the tree model: a write that happens only on some paths (guarded entry after a
+        # join of return paths) is then present only under its guard
+        val = M.tree_get(it, s, tree1, key)
+        if isinstance(val, Agg):
+            raise Inconclusive('reward coin entry not readable')
         cdh = val.data.value
+        created = val.data.present
         want = Agg('CoinDataHeight', [Agg('CoinData', [S.address(dest), S.coinvalue(base_fees + tips), S.denom('Mel'),
                                                       Agg('Vec', [])]), S.blockheight(h)])
         # the coin id is (hash_keyed("reward_coin_pseudoid", height), 0)
         idterm = key.arg(0)
         idx_t = key.arg(1)
         idok = z3.And(idx_t == 0, z3.BoolVal(M.hash_domain_of(idterm) is not None and 'reward_coin_pseudoid' in (M.hash_domain_of(idterm) or '')))
-        claim = z3.And(val_eq(cdh, want), post.fields[5].fields[0] == fp - base_fees, post.fields[7].fields[0] == 0,
+        claim = z3.And(created, val_eq(cdh, want), post.fields[5].fields[0] == fp - base_fees, post.fields[7].fields[0] == 0,
                        post.fields[6] == sterms['fee_multiplier'], idok)
         chk.obligation('FUNC/reward-coin-and-accounts/' + name, list(s.pc), claim, inputs,
                        replay=lambda mo: replay_reward(chk, mo, inputs), bound='all u128 with pool + tips <= 2^127')
@@ -303,9 +318,10 @@ def reward_kernel(chk, it):
         after = z3.ZeroExt(8, post.fields[5].fields[0]) + z3.ZeroExt(8, post.fields[7].fields[0]) + z3.ZeroExt(8, cdh.fields[0].fields[1].fields[0])
         chk.obligation('FUNC/reward-conserves-mel/' + name, list(s.pc), before == after, inputs,
                        replay=lambda mo: replay_reward(chk, mo, inputs))
-        chk.cover('non-zero pool and tips/' + name, list(s.pc) + [z3.UGT(fp, 1 << 20), z3.UGT(tips, 5)])
+        reward_covers.append((list(s.pc), z3.And(z3.UGT(fp, 1 << 20), z3.UGT(tips, 5))))
     if n == 0:
         raise Inconclusive('collect_proposer_action_fee has no returning path')
+    chk.cover_any('non-zero pool and tips/collect_proposer_action_fee', reward_covers)
 
 
 def replay_fee(chk, model, inputs):
@@ -349,25 +365,33 @@ def replay_fee(chk, model, inputs):
 
 
 def replay_reward(chk, model, inputs):
+    """seal(Some(action)) on an empty block with the model's pool / tips, on a network with the TIP-909 subsidy (Custom02)
+    and on networks without it at this height (Testnet, Mainnet), where the pool reaches the proposer action unchanged"""
     ev = lambda t: harness.model_int(model, t)
     fp, tips = ev(inputs['fee_pool']), ev(inputs['tips'])
     dest = '%064x' % ev(inputs['reward_dest'])
-    sc = {'kind': 'batch', 'network': 2, 'height': 1, 'fee_pool': str(fp), 'tips': str(tips), 'fee_multiplier': '1000',
-          'dosc_speed': '1000000', 'coins': [], 'txs': [], 'probes': [], 'seal': {'delta': 0, 'reward_dest': dest},
-          'probe_reward': True}
-    out = harness.run_replay([sc], 'dev')[0]
-    if 'error' in out or 'unrealizable' in out:
-        raise Inconclusive('replay: %s' % out)
-    seal = out['runs'][0]['seal']
-    if seal.get('panicked'):
-        return True, sc, seal
-    # Custom02 has TIP-909 on: the subsidy adds the MEL it buys to the fee pool *before* the proposer action
-    reward = seal.get('reward_coin')
-    pool_before = int(seal['fee_pool_before_action'])
-    want = (pool_before >> 16) + tips
-    bad = reward is None or int(reward['value']) != want or reward['covhash'] != dest or reward['denom'] != 'MEL' \
-        or int(seal['fee_pool']) != pool_before - (pool_before >> 16) or int(seal['tips']) != 0
-    return bad, sc, {'reward': reward, 'expected_value': str(want), 'fee_pool_after': seal['fee_pool'], 'tips_after': seal['tips']}
+    last = None
+    for net in (2, 1, 0xff):
+        sc = {'kind': 'batch', 'network': net, 'height': 1, 'fee_pool': str(fp), 'tips': str(tips), 'fee_multiplier': '1000',
+              'dosc_speed': '1000000', 'coins': [], 'txs': [], 'probes': [], 'seal': {'delta': 0, 'reward_dest': dest},
+              'probe_reward': True}
+        out = harness.run_replay([sc], 'dev')[0]
+        if 'error' in out or 'unrealizable' in out:
+            raise Inconclusive('replay: %s' % out)
+        seal = out['runs'][0]['seal']
+        if seal.get('panicked'):
+            return True, sc, seal
+        # with TIP-909 on, the subsidy adds the MEL it buys to the fee pool *before* the proposer action
+        reward = seal.get('reward_coin')
+        pool_before = int(seal['fee_pool_before_action'])
+        want = (pool_before >> 16) + tips
+        bad = reward is None or int(reward['value']) != want or reward['covhash'] != dest or reward['denom'] != 'MEL' \
+            or int(seal['fee_pool']) != pool_before - (pool_before >> 16) or int(seal['tips']) != 0
+        last = (sc, {'network': net, 'reward': reward, 'expected_value': str(want), 'fee_pool_after': seal['fee_pool'],
+                     'tips_after': seal['tips']})
+        if bad:
+            return True, last[0], last[1]
+    return False, last[0], last[1]
 
 
 def replay_weight_sum(chk):
